@@ -38,8 +38,8 @@ var specs = map[Signal]spec{
 
 // fields outside docs/data_model.md, addressed by path from the item root
 var stripPaths = map[Signal]map[string]bool{
-	Traces:  {"I/flags": true, "I/links[]/flags": true, "R/resource/entityRefs": true},
-	Logs:    {"I/eventName": true, "R/resource/entityRefs": true},
+	Traces: {"I/flags": true, "I/links[]/flags": true, "R/resource/entityRefs": true},
+	Logs:   {"I/eventName": true, "R/resource/entityRefs": true},
 	Metrics: {"I/metadata": true, "R/resource/entityRefs": true,
 		// EXP_HISTOGRAM_DATA_POINTS has no zero_threshold column in docs/data_model.md
 		"I/exponentialHistogram/dataPoints[]/zeroThreshold": true},
